@@ -222,6 +222,8 @@ def new_model(fam, profile):
         return M(settings={"train_features": ["temperature", "ghi"]})
     if fam == "Hourly" and profile == "supp":
         return M(settings={"supplemental_time_series_columns": ["occ"]})
+    if fam == "Hourly" and profile == "suppcat":
+        return M(settings={"supplemental_categorical_columns": ["flag"]})
     return M()
 
 
@@ -465,6 +467,19 @@ def build_world(seed, quick=True):
     _add_obj("Hourly", "H.rep_1weekb_occ", spec("HourlyReportingData", "init", ["H.rep_1weekb_occ"]), "reporting", "1 week b",
              problems=problems)
 
+    # a column the "suppcat" profile declares as supplemental CATEGORICAL column, present in its baseline
+    hb = F.hourly_frame(rng, tz=tz)
+    hb["flag"] = (hb.index.dayofweek >= 5).astype(float)
+    TPL["H.base_flag"] = hb
+    _add_obj("Hourly", "H.base_flag", spec("HourlyBaselineData", "init", ["H.base_flag"]), "baseline", "full year", problems=problems)
+    for span, a0, n0 in [("1 week b", d0, 7), ("1 month", 150, 30)]:
+        key = span.replace(" ", "")
+        fl = hrep.iloc[a0 * 24:(a0 + n0) * 24][["observed", "temperature"]].copy()
+        fl["flag"] = (fl.index.dayofweek >= 5).astype(float)
+        TPL["H.rep_%s_flag" % key] = fl
+        _add_obj("Hourly", "H.rep_%s_flag" % key, spec("HourlyReportingData", "init", ["H.rep_%s_flag" % key]), "reporting", span,
+                 problems=problems)
+
     # ---------------- CalTRACK hourly
     cb = F.hourly_frame(rng, tz=tz)
     cb.iloc[rng.sample(range(len(cb)), 10), 0] = 0.0
@@ -498,11 +513,11 @@ def build_world(seed, quick=True):
 
 
 MAIN_BASE = {"Daily": "D.base", "Billing": "B.base", "Hourly": "H.base", "Caltrack": "C.base"}
-PROFILES = {"Daily": ["default"], "Billing": ["default"], "Hourly": ["default", "ghi", "supp"], "Caltrack": ["default"]}
+PROFILES = {"Daily": ["default"], "Billing": ["default"], "Hourly": ["default", "ghi", "supp", "suppcat"], "Caltrack": ["default"]}
 
 
 def fit_main(fam, profile):
-    base = MAIN_BASE[fam] if not (fam == "Hourly" and profile == "ghi") else "H.base_ghi"
+    base = {("Hourly", "ghi"): "H.base_ghi", ("Hourly", "suppcat"): "H.base_flag"}.get((fam, profile), MAIN_BASE[fam])
     m = new_model(fam, profile)
     if fam == "Caltrack":
         m.fit(OBJ[base]["obj"])
@@ -733,7 +748,7 @@ def run_history(job):
                 prof = op[2]
                 rec["dataset"] = name
                 call = model_class(ofam).__name__ + ".fit"
-                other = new_model(ofam, prof if not (ofam == "Hourly" and prof in ("ghi", "supp") and not OBJ[name]["ghi"]) else "default")
+                other = new_model(ofam, prof if not (ofam == "Hourly" and prof in ("ghi", "supp", "suppcat") and not OBJ[name]["ghi"]) else "default")
                 call = type(other).__name__ + ".fit"
                 d = OBJ[name]["obj"]
                 rec["data_dq_before"] = len(d.disqualification)
